@@ -1393,7 +1393,7 @@ func TestVerif_C19(t *testing.T) {
 			defer wg.Done()
 			defer func() { <-sem }()
 			cfg := c19MakeCfg(rec.Seed, run, rec.Tier)
-			res := rec.RunChild("TestVerif_C19", "run", strconv.Itoa(run), env, 8*time.Minute)
+			res := rec.RunChild("TestVerif_C19", "run", strconv.Itoa(run), env, 12*time.Minute)
 			mu.Lock()
 			defer mu.Unlock()
 			switch {
